@@ -247,6 +247,71 @@ class atomic
   T vs_raw() const noexcept { return v_; }
 };
 
+// std::atomic_ref<T>: same operations on an object that lives elsewhere (layout of atomic<T> is a single T)
+template <class T>
+class atomic_ref
+{
+  atomic<T> *a_;
+
+ public:
+  using value_type = T;
+  static constexpr bool is_always_lock_free = true;
+  static constexpr size_t required_alignment = alignof(T);
+  explicit atomic_ref(T &obj) noexcept : a_{reinterpret_cast<atomic<T> *>(&obj)} {}
+  atomic_ref(const atomic_ref &) noexcept = default;
+  bool is_lock_free() const noexcept { return true; }
+  T load(std::memory_order m = std::memory_order_seq_cst) const noexcept { return a_->load(m); }
+  void store(T v, std::memory_order m = std::memory_order_seq_cst) const noexcept { a_->store(v, m); }
+  T exchange(T v, std::memory_order m = std::memory_order_seq_cst) const noexcept { return a_->exchange(v, m); }
+  bool compare_exchange_weak(T &e, T d, std::memory_order s, std::memory_order f) const noexcept { return a_->compare_exchange_weak(e, d, s, f); }
+  bool compare_exchange_strong(T &e, T d, std::memory_order s, std::memory_order f) const noexcept { return a_->compare_exchange_strong(e, d, s, f); }
+  bool compare_exchange_weak(T &e, T d, std::memory_order m = std::memory_order_seq_cst) const noexcept { return a_->compare_exchange_weak(e, d, m); }
+  bool compare_exchange_strong(T &e, T d, std::memory_order m = std::memory_order_seq_cst) const noexcept { return a_->compare_exchange_strong(e, d, m); }
+  template <class D> T fetch_add(D d, std::memory_order m = std::memory_order_seq_cst) const noexcept { return a_->fetch_add(d, m); }
+  template <class D> T fetch_sub(D d, std::memory_order m = std::memory_order_seq_cst) const noexcept { return a_->fetch_sub(d, m); }
+  T fetch_or(T d, std::memory_order m = std::memory_order_seq_cst) const noexcept { return a_->fetch_or(d, m); }
+  T fetch_and(T d, std::memory_order m = std::memory_order_seq_cst) const noexcept { return a_->fetch_and(d, m); }
+  T fetch_xor(T d, std::memory_order m = std::memory_order_seq_cst) const noexcept { return a_->fetch_xor(d, m); }
+  operator T() const noexcept { return load(); }  // NOLINT
+  T operator=(T v) const noexcept { store(v); return v; }  // NOLINT
+  void wait(T old, std::memory_order m = std::memory_order_seq_cst) const noexcept { a_->wait(old, m); }
+  void notify_one() const noexcept { a_->notify_one(); }
+  void notify_all() const noexcept { a_->notify_all(); }
+};
+
+// std::atomic_flag
+class atomic_flag
+{
+  atomic<bool> f_{false};
+
+ public:
+  constexpr atomic_flag() noexcept = default;
+  atomic_flag(const atomic_flag &) = delete;
+  bool test_and_set(std::memory_order m = std::memory_order_seq_cst) noexcept { return f_.exchange(true, m); }
+  void clear(std::memory_order m = std::memory_order_seq_cst) noexcept { f_.store(false, m); }
+  bool test(std::memory_order m = std::memory_order_seq_cst) const noexcept { return f_.load(m); }
+  void wait(bool old, std::memory_order m = std::memory_order_seq_cst) const noexcept { f_.wait(old, m); }
+  void notify_one() noexcept { f_.notify_one(); }
+  void notify_all() noexcept { f_.notify_all(); }
+};
+
+// std::mutex: a scheduler-aware test-and-set lock (a thread blocking in the real one would stall the baton)
+class mutex
+{
+  atomic<bool> held_{false};
+
+ public:
+  constexpr mutex() noexcept = default;
+  mutex(const mutex &) = delete;
+  void
+  lock()
+  {
+    while (held_.exchange(true, std::memory_order_acquire)) yield_hint();
+  }
+  bool try_lock() { return !held_.exchange(true, std::memory_order_acquire); }
+  void unlock() { held_.store(false, std::memory_order_release); }
+};
+
 inline void
 fence(std::memory_order m) noexcept
 {
@@ -272,6 +337,10 @@ namespace std
 {
 template <class T>
 using vs_atomic = ::vsched::atomic<T>;
+template <class T>
+using vs_atomic_ref = ::vsched::atomic_ref<T>;
+using vs_atomic_flag = ::vsched::atomic_flag;
+using vs_mutex = ::vsched::mutex;
 using vs_atomic_bool = ::vsched::atomic<bool>;
 using vs_atomic_char = ::vsched::atomic<char>;
 using vs_atomic_int = ::vsched::atomic<int>;
@@ -316,6 +385,9 @@ vs_yield() noexcept
 }  // namespace std
 
 #define atomic vs_atomic
+#define atomic_ref vs_atomic_ref
+#define atomic_flag vs_atomic_flag
+#define mutex vs_mutex
 #define atomic_bool vs_atomic_bool
 #define atomic_char vs_atomic_char
 #define atomic_int vs_atomic_int
